@@ -214,7 +214,18 @@ func (m *Muxer) isAnimated() bool {
 
 // needsVP8X returns true if the file requires the extended format header.
 func (m *Muxer) needsVP8X() bool {
-	return m.isAnimated() || m.iccData != nil || m.exifData != nil || m.xmpData != nil || m.hasAlphaChunk()
+	return m.isAnimated() || m.iccData != nil || m.exifData != nil || m.xmpData != nil || m.hasAlphaChunk() ||
+		m.hasDistinctCanvas()
+}
+
+// hasDistinctCanvas reports whether an explicit canvas size was set that differs
+// from the (single) frame's own size; only the VP8X header can carry it.
+func (m *Muxer) hasDistinctCanvas() bool {
+	if m.canvasWidth <= 0 || m.canvasHeight <= 0 || len(m.frames) == 0 {
+		return false
+	}
+	fw, fh := frameDimensions(m.frames[0].data)
+	return fw != m.canvasWidth || fh != m.canvasHeight
 }
 
 // hasAlphaChunk reports whether any frame's data carries an ALPH chunk prefix.
